@@ -199,6 +199,7 @@ func Load(repo, specDir string) (*Program, error) {
 		}
 		p.Contract[fs.Name] = fs
 	}
+	p.bindAnchoredClosures()
 	for _, sf := range p.Spec.SpecFns {
 		p.SpecFn[sf.Name] = sf
 	}
@@ -371,4 +372,137 @@ func hasMethod(t types.Type, name string) bool {
 		}
 	}
 	return false
+}
+
+// bindAnchoredClosures: a closure's contract is named after the closure's
+// ordinal in its function (F$2), which changes when a function literal is added
+// or removed in front of it. A contract that carries `anchor "text"` binds to
+// the one closure of F whose literal starts on a source line containing the
+// text, whatever its ordinal: the contract - and every contract named after it
+// (F$2.next, F$2$1) - is renamed to that closure's current name.
+func (p *Program) bindAnchoredClosures() {
+	lines := map[string][]string{}
+	lineAt := func(fn *ssa.Function) string {
+		pos := p.Prog.Fset.Position(fn.Pos())
+		if !pos.IsValid() {
+			return ""
+		}
+		ls, ok := lines[pos.Filename]
+		if !ok {
+			if data, err := os.ReadFile(pos.Filename); err == nil {
+				ls = strings.Split(string(data), "\n")
+			}
+			lines[pos.Filename] = ls
+		}
+		if pos.Line-1 < len(ls) && pos.Line >= 1 {
+			return ls[pos.Line-1]
+		}
+		return ""
+	}
+	rename := map[string]string{}
+	var olds []string
+	for name, cs := range p.Contract {
+		if cs.Anchor == "" {
+			continue
+		}
+		i := strings.LastIndex(name, "$")
+		if i < 0 {
+			cs.AnchorErr = "anchor on a contract that is not a closure's"
+			continue
+		}
+		parent := p.Funcs[name[:i]]
+		if parent == nil {
+			cs.AnchorErr = "anchor: no function " + name[:i]
+			continue
+		}
+		var hits []*ssa.Function
+		for _, a := range parent.AnonFuncs {
+			if strings.Contains(lineAt(a), cs.Anchor) {
+				hits = append(hits, a)
+			}
+		}
+		if len(hits) != 1 {
+			cs.AnchorErr = fmt.Sprintf("anchor %q matches %d function literals of %s", cs.Anchor, len(hits), name[:i])
+			continue
+		}
+		if now := p.FuncName(hits[0]); now != name {
+			rename[name] = now
+			olds = append(olds, name)
+		}
+	}
+	if len(rename) == 0 {
+		return
+	}
+	sort.Strings(olds)
+	moved := map[string]*spec.FuncSpec{}
+	for key, cs := range p.Contract {
+		for _, old := range olds {
+			if key == old || strings.HasPrefix(key, old+".") || strings.HasPrefix(key, old+"$") {
+				nk := rename[old] + key[len(old):]
+				moved[nk] = cs
+				delete(p.Contract, key)
+				cs.Name = nk
+				break
+			}
+		}
+	}
+	// the callee names inside clauses follow: assert@call(F$2.next), callres("F$2.next", 1)
+	renamed := func(n string) string {
+		prefix := ""
+		if strings.HasPrefix(n, "go ") {
+			prefix, n = "go ", n[3:]
+		}
+		for _, old := range olds {
+			if n == old || strings.HasPrefix(n, old+".") || strings.HasPrefix(n, old+"$") {
+				return prefix + rename[old] + n[len(old):]
+			}
+		}
+		return prefix + n
+	}
+	fixExpr := func(e spec.Expr) {
+		walk(e, func(x spec.Expr) {
+			if c, ok := x.(*spec.Call); ok && (c.Fun == "called" || c.Fun == "callres" || c.Fun == "callresb" || c.Fun == "panicked" || c.Fun == "panicval") && len(c.Args) > 0 {
+				if lit, ok := c.Args[0].(*spec.StrLit); ok {
+					lit.Val = renamed(lit.Val)
+				}
+			}
+		})
+	}
+	all := map[*spec.FuncSpec]bool{}
+	for _, cs := range p.Contract {
+		all[cs] = true
+	}
+	for _, cs := range moved {
+		all[cs] = true
+	}
+	for cs := range all {
+		for i := range cs.CallAsserts {
+			cs.CallAsserts[i].Callee = renamed(cs.CallAsserts[i].Callee)
+			fixExpr(cs.CallAsserts[i].Clause.E)
+		}
+		for _, cl := range cs.Requires {
+			fixExpr(cl.E)
+		}
+		for _, cl := range cs.Ensures {
+			fixExpr(cl.E)
+		}
+		for _, cl := range cs.PanicEnsures {
+			fixExpr(cl.E)
+		}
+		for _, ls := range cs.Loops {
+			for _, inv := range ls.Invariants {
+				fixExpr(inv.E)
+			}
+		}
+		for i := range cs.Implements {
+			cs.Implements[i] = renamed(cs.Implements[i])
+		}
+	}
+	for nk, cs := range moved {
+		if other, clash := p.Contract[nk]; clash && other != cs {
+			cs.AnchorErr = "anchor: the closure found is already under contract as " + nk + " (give that contract an anchor too)"
+			continue
+		}
+		p.Contract[nk] = cs
+	}
 }
